@@ -128,7 +128,9 @@ def conf_input(rng, j):
             r["rank"] = int(rng.integers(1, 5))
     # a three-column spectrum key whose retention time is missing for every third spectrum (empty cell / Parquet null)
     return {"kind": "assign", "colls": [{"rows": rows}], "extra_levels": ["prec"], "dedup": dedup, "rollup": rollup,
-            "decoys": True, "ties": bool(j % 3 == 2), "key_rt": ["missing", "full", None, "missing"][j % 4] if j % 3 != 2 else None}
+            "decoys": True, "ties": bool(j % 3 == 2), "key_rt": ["missing", "full", None, "missing"][j % 4] if j % 3 != 2 else None,
+            # whole-number masses written as integers in the text rendering (chunks are type-inferred one by one)
+            "int_mass": j % 4 == 2 and j % 3 != 2}
 
 
 def conf_configs(inp, rng, quick):
